@@ -33,13 +33,14 @@ class SimpleCookieJar:
                 if domain := v.get("domain"):
                     if not domain.startswith("."):
                         domain = f".{domain}"
+                    domain = domain.lower()
                     cookie = (
                         self.jar.get(domain)
                         if self.jar.get(domain)
                         else http.cookies.SimpleCookie()
                     )
                     cookie.update(simple_cookie)
-                    self.jar[domain.lower()] = cookie
+                    self.jar[domain] = cookie
 
     def set(self, set_cookie: str) -> None:
         if set_cookie:
